@@ -107,6 +107,21 @@ func c03One(r *Run, in *instance) {
 	bnd := fmt.Sprintf("%s: all limb and public values in [0,r)", in.Name)
 	replay := func(kind string) func(res smt.Result) *Violation {
 		return func(res smt.Result) *Violation {
+			// constructive candidates first: the lowest limb of a packed word shifted by p (the inner proof
+			// sees the same residue), the packed value adjusted accordingly
+			if len(limbs) == 16 && len(vals) == 4 {
+				for _, j := range []int{0, 3} {
+					l, v := limbs[4*j+3], vals[j]
+					if l.Honest == nil || v.Honest == nil {
+						continue
+					}
+					cr := &circuitReplay{Kind: "circuit", Wrapper: "fixed", Instance: in.Base, K: in.K, Expect: "accepted", Edits: []edit{
+						{Path: l.Path, Set: new(big.Int).Add(l.Honest, P).String()}, {Path: v.Path, Set: new(big.Int).Add(v.Honest, P).String()}}}
+					if acc, _ := runCircuitReplay(cr, r.Repo); acc {
+						return &Violation{What: fmt.Sprintf("CircuitFixed accepts a second limb/public-value assignment for the same inner proof (%s): limb %s + p with public value %d + p", kind, l.Path, j), Replay: toMap(cr), Outcome: "real CircuitFixed (test.IsSolved) accepts the honest proof with these limbs and public values"}
+					}
+				}
+			}
 			// search a replayable counterexample: limbs congruent to the honest ones mod p
 			em := sym.NewEmitter()
 			em.Refined = true
